@@ -250,6 +250,17 @@ func (ts *TermStore) Ite(c, a, b *Term) *Term {
 
 func (ts *TermStore) Eq(a, b *Term) *Term {
 	if a.sort != b.sort {
+		// a "number token" (a 64-bit value standing for its decimal digits inside a byte
+		// string, see fmtArg) never equals a byte that is not a digit
+		if a.sort == BVSort(64) && b.sort == BVSort(8) {
+			a, b = b, a
+		}
+		if a.sort == BVSort(8) && b.sort == BVSort(64) {
+			if a.isConst && (a.u < '0' || a.u > '9') {
+				return ts.False
+			}
+			panic(engineError("comparison of a decimal-number token with a digit or a symbolic byte"))
+		}
 		panic(fmt.Sprintf("eq sort mismatch %v %v (%s / %s)", a.sort, b.sort, ts.Show(a), ts.Show(b)))
 	}
 	if a == b && a.sort.K != SFP {
